@@ -1000,6 +1000,132 @@ func (d *vfDisk) runScript(script string) {
 // vfWatchdog ends the whole test process when it runs longer than limit: the
 // summary (with the op that was running) is written first, so that no behaviour
 // of the code under test can make the check wait for go test's own timeout.
+// ---------------------------------------------------------------- the rotation window
+
+// vfRotationWindow drives the instant inside a rotation at which the next file
+// already exists but is not yet in the index (AofRotater.openFile: create + header +
+// fsync, THEN the Open observer). A reader polling at the tail during that
+// instant must not leave its segment (it would hold no reference on the new one:
+// the collector then removes segments ahead of it). Monitor only: afterwards the
+// writer goes on for several segments with collector passes while the reader
+// rests; then the reader must deliver every byte written, in order.
+func vfRotationWindow(s *vfutil.Session, r *vfutil.Rand, dir string, verify bool) {
+	const logSize = 64
+	replay := map[string]interface{}{"scenario": "rotation-window", "verify": verify}
+	st := NewStorer("vf", dir, 2*logSize, logSize, config.FlushPolicy{})
+	st.VerifStopCollector()
+	if err := st.SetRunId("rw"); err != nil {
+		return
+	}
+	salt := r.U64() % 100000
+	src := func(from int64, n int) []byte {
+		b := make([]byte, n)
+		for i := range b {
+			x := salt*0x9E3779B97F4A7C15 + uint64(from) + uint64(i)
+			x ^= x >> 31
+			x *= 0xff51afd7ed558ccd
+			b[i] = byte(x >> 24)
+		}
+		return b
+	}
+	start := int64(100 + r.Intn(900))
+	w, err := st.GetAofWritter(nil, start)
+	if err != nil {
+		return
+	}
+	defer w.Close()
+	right := start
+	write := func(n int) bool {
+		if err := w.write(src(right, n)); err != nil {
+			return false
+		}
+		right += int64(n)
+		return true
+	}
+	write(10 + r.Intn(30)) // stays inside the first segment
+	rd, err := st.GetReader(start, verify)
+	if err != nil || rd.aof == nil {
+		s.Violate("valid-not-readable", fmt.Sprintf("rotation window: GetReader(%d, verify=%v) failed: %v", start, verify, err), replay)
+		return
+	}
+	defer rd.aof.Close()
+	// the reader's consumer: reads when told to, up to a target offset
+	var got []byte
+	var rerr error
+	pos := func() int64 { return start + int64(len(got)) }
+	readTo := func(target int64, budget time.Duration) bool {
+		done := make(chan struct{})
+		go func() {
+			defer close(done)
+			buf := make([]byte, 4096)
+			for pos() < target {
+				n, err := rd.aof.read(buf)
+				got = append(got, buf[:n]...)
+				if err != nil {
+					rerr = err
+					return
+				}
+			}
+		}()
+		select {
+		case <-done:
+			return rerr == nil
+		case <-time.After(budget):
+			return false
+		}
+	}
+	if !readTo(right, 3*time.Second) {
+		return
+	}
+	// the reader polls at the tail (one read in flight) while the writer rotates in two steps
+	polled := make(chan struct{})
+	go func() {
+		defer close(polled)
+		buf := make([]byte, 4096)
+		n, err := rd.aof.read(buf)
+		got = append(got, buf[:n]...)
+		if err != nil {
+			rerr = err
+		}
+	}()
+	if err := VerifRotateInSteps(w, func() {
+		time.Sleep(35 * time.Millisecond) // at least three polls of the reader
+		st.VerifGcLog()
+		time.Sleep(15 * time.Millisecond)
+	}); err != nil {
+		return
+	}
+	write(10 + r.Intn(20)) // the poll in flight returns these bytes
+	select {
+	case <-polled:
+	case <-time.After(3 * time.Second):
+		s.Violate("reader-stalls-behind-writer", fmt.Sprintf("rotation window (verify=%v): the reader polling at %d during the rotation does not deliver the bytes appended after it (writer at %d)", verify, pos(), right), replay)
+		return
+	}
+	// the reader rests; the writer fills several segments, the collector runs
+	for i := 0; i < 6 && rerr == nil; i++ {
+		write(40 + r.Intn(20))
+		st.VerifGcLog()
+	}
+	if rerr == nil && !readTo(right, 3*time.Second) && rerr == nil {
+		s.Violate("reader-stalls-behind-writer", fmt.Sprintf("rotation window (verify=%v): reader opened at %d is at %d, the writer at %d: it neither delivers nor fails (held range %v)", verify, start, pos(), right, fmt.Sprint(st.GetOffsetRange())), replay)
+		return
+	}
+	if rerr != nil {
+		s.Violate("reader-failed", fmt.Sprintf("rotation window (verify=%v): reader opened at %d failed at %d without being invalidated: %v", verify, start, pos(), rerr), replay)
+		return
+	}
+	want := src(start, len(got))
+	for i := range got {
+		if got[i] != want[i] {
+			s.Violate("wrong-bytes", fmt.Sprintf("rotation window (verify=%v): offset %d delivered as %02x, written %02x", verify, start+int64(i), got[i], want[i]), replay)
+			break
+		}
+	}
+	s.Add("mon_bytes_checked", len(got))
+	s.Count("rotation_windows")
+}
+
 func vfWatchdog(s *vfutil.Session, limit time.Duration, cur func() string) *time.Timer {
 	return time.AfterFunc(limit, func() {
 		s.Violate("harness-watchdog", fmt.Sprintf("the harness did not finish within %v; last op: %s", limit, cur()),
@@ -1050,6 +1176,9 @@ func TestVerifC05(t *testing.T) {
 	}
 	if d.stalls >= 4 {
 		s.Count("run_cut_short_after_stalls")
+	}
+	for i := 0; i < vfutil.Scale(6, 40); i++ {
+		vfRotationWindow(s, d.r, t.TempDir(), i%2 == 1)
 	}
 	_ = filepath.Join
 }
